@@ -2,7 +2,7 @@
    (or a one-line instantiation) and followed by Print Assumptions.  One file per property, importing only
    what that property's statements need, so that a change which breaks one property's proof leaves the
    others' theorems checkable. *)
-From NTRIP Require Import Base Bits Time Classify Frame FrameSpec FrameProofs SegProofs Net Pipe PipeFrames FilterProofs.
+From NTRIP Require Import Base Bits Time Classify Frame FrameSpec FrameProofs SegProofs Net Pipe PipeFrames IncFrame PipeInc FilterProofs.
 From NTRIPGen Require Import GenConsts.
 
 (* ===================== C10 ===================== *)
@@ -45,6 +45,19 @@ Theorem C10_every_schedule : forall t0 segs tail (k : nat) (live sync : nat -> b
      forall i, (i < k)%nat -> live i = true -> filter_output (sink_out N msg (list N) c i) = frames_of segs).
 Proof. exact filter_every_schedule. Qed.
 Print Assumptions C10_every_schedule.
+
+(* The same with the byte-driven framer of IncFrame.v as the framer process. *)
+Theorem C10_every_schedule_incremental : forall t0 segs tail (k : nat) (live sync : nat -> bool) cap0 cap1 caps,
+  wf_segsb segs = true -> tail_ok tail ->
+  (1 <= cap0)%nat -> (1 <= cap1)%nat -> length caps = k -> Forall (fun c => (1 <= c)%nat) caps ->
+  exists n, forall m c,
+    steps _ (nstep _ _ _ (Pipe.prog N msg mstate mstep mflush k live sync) Pipe.sender Pipe.receiver (SkDone _ _ _)) m
+          (Pipe.init N msg mstate k cap0 cap1 caps (flatten segs ++ tail) (new_handler t0, PEat [])) c ->
+    (m <= n)%nat /\
+    (final_config _ _ _ (Pipe.prog N msg mstate mstep mflush k live sync) Pipe.sender Pipe.receiver (SkDone _ _ _) c ->
+     forall i, (i < k)%nat -> live i = true -> filter_output (sink_out N msg mstate c i) = frames_of segs).
+Proof. exact filter_incremental. Qed.
+Print Assumptions C10_every_schedule_incremental.
 
 (* is_rtcm / filter_output transcribe rtcmfilter's writeRTCMMessages: its single continue statement is
    guarded by  message.MessageType == utils.NonRTCMMessage  and its single Write call writes
